@@ -22,12 +22,12 @@ import Uquic.Proofs.WireMoreDatagram
 import Uquic.Proofs.WireMoreVarint
 
 namespace Uquic.Props.C08More
-open Uquic.Model.Wire Uquic.Model.Wire.Varint Uquic.Proofs.Wire
+open Uquic.Model.Wire Uquic.Model.Wire.Varint Uquic.Model.Wire.Varint.BR Uquic.Proofs.Wire Uquic.Proofs.WireMore
 
 /-! ## (1) transport parameters -/
 
 section TP
-open Uquic.Model.Wire.TP
+open Uquic.Model.Wire.TP Uquic.Model.Wire.TP.RT
 
 /-- `tp_parse_marshal`: for EVERY `TransportParameters` value `p` that respects the Go types (`Typed`)
     and the RFC ranges the parser enforces (`Valid`), from either perspective, for every greased
@@ -96,16 +96,6 @@ theorem tp_ticket_parse_marshal (p : Params) (b : Bytes) (hv : ValidTicket p)
     (hm : marshalForSessionTicket p = some b) :
     unmarshalFromSessionTicket b = .ok (normalizeTicket p) :=
   tp_roundtrip_ticket p b hv hm
-
-/-- a server's parameters with every optional parameter present -/
-def exampleParams : Params :=
-  { initialMaxStreamDataBidiLocal := 524288, initialMaxStreamDataBidiRemote := 524288, initialMaxStreamDataUni := 2 ^ 62 - 1,
-    initialMaxData := 786432, maxAckDelay := 26000000, ackDelayExponent := 4, disableActiveMigration := true,
-    maxUDPPayloadSize := 1452, maxUniStreamNum := 100, maxBidiStreamNum := 2 ^ 60, maxIdleTimeout := 30000000000,
-    preferredAddress := some { v4 := some ([127, 0, 0, 1], 4433), v6 := none, connID := [1, 2, 3, 4], token := List.replicate 16 7 },
-    odcid := [9, 9, 9, 9, 9, 9, 9, 9], iscid := [], rscid := some [5, 6], srt := some (List.replicate 16 1),
-    activeConnectionIDLimit := 4, maxDatagramFrameSize := some 16383, enableResetStreamAt := true,
-    minAckDelay := some 1000000 }
 
 example : Typed exampleParams ∧ Valid exampleParams perspectiveServer ∧ Valid exampleParams perspectiveClient
     ∧ ValidTicket exampleParams := by
